@@ -338,20 +338,53 @@ def _seq_elements(fi, expr, what, depth=0):
             rets = returns_of(g)
             if len(rets) == 1 and rets[0].value is not None and _straight_line(g, rets[0]) and not g.params():
                 return [_closed(g, e) for e in _seq_elements(g, rets[0].value, what, depth + 1)]
+    if isinstance(expr, ast.Subscript) and isinstance(expr.slice, ast.Slice) and expr.slice.step is None:
+        # pages[:1] / pages[1:] of a sequence that can be followed
+        lo = _const_index(expr.slice.lower) if expr.slice.lower is not None else None
+        hi = _const_index(expr.slice.upper) if expr.slice.upper is not None else None
+        if (expr.slice.lower is not None and lo is None) or (expr.slice.upper is not None and hi is None):
+            raise AnalysisError('%s: slice %s cannot be followed' % (what, short(expr)))
+        return _seq_elements(fi, expr.value, what, depth + 1)[lo:hi]
     if isinstance(expr, (ast.ListComp, ast.GeneratorExp)) and len(expr.generators) == 1 and not expr.generators[0].ifs and \
-            isinstance(expr.generators[0].target, ast.Name) and not expr.generators[0].is_async:
-        # [(p, endpoint, name) for p in ('/', '/<x*>')]: one element per constant of the iterated literal
+            not expr.generators[0].is_async:
+        # [(p, endpoint, name) for p in ('/', '/<x*>')] / [(p, *t) for p, t in zip(PATTERNS, targets)]: one element per
+        # element of the iterated sequence(s), the loop variables replaced by those elements
         import copy
         g = expr.generators[0]
-        consts = fi.mod.repo.try_fold(_deref(fi, g.iter), fi.mod, None)
-        if not isinstance(consts, (list, tuple)) or not all(isinstance(c, (str, int, bytes)) for c in consts):
-            raise AnalysisError('%s: comprehension over %s cannot be expanded' % (what, short(g.iter)))
+        it = _deref(fi, g.iter)
+        rows = None
+        consts = fi.mod.repo.try_fold(it, fi.mod, None)
+        if isinstance(consts, (list, tuple)) and all(isinstance(c, (str, int, bytes)) for c in consts):
+            rows = [ast.copy_location(ast.Constant(value=c), g.iter) for c in consts]
+        elif isinstance(it, ast.Call) and call_name(it) == 'zip' and it.args and not it.keywords:
+            cols = [_seq_elements(fi, a, what, depth + 1) for a in it.args]
+            rows = [ast.copy_location(ast.Tuple(elts=list(r), ctx=ast.Load()), g.iter) for r in zip(*cols)]
+        elif isinstance(it, ast.Call) and call_name(it) == 'enumerate' and len(it.args) == 1 and not it.keywords:
+            col = _seq_elements(fi, it.args[0], what, depth + 1)
+            rows = [ast.copy_location(ast.Tuple(elts=[ast.Constant(value=i), e], ctx=ast.Load()), g.iter) for i, e in enumerate(col)]
+        else:
+            rows = _seq_elements(fi, it, what, depth + 1)
         out = []
-        for c in consts:
+        for row in rows:
+            binding = {}
+
+            def bind(t, v):
+                if isinstance(t, ast.Name):
+                    binding[t.id] = v
+                elif isinstance(t, (ast.Tuple, ast.List)) and not any(isinstance(x, ast.Starred) for x in t.elts):
+                    vs = _seq_elements(fi, v, what, depth + 1) if not isinstance(v, ast.Constant) else None
+                    if vs is None or len(vs) != len(t.elts):
+                        raise AnalysisError('%s: comprehension target %s cannot be bound' % (what, short(t)))
+                    for t_, v_ in zip(t.elts, vs):
+                        bind(t_, v_)
+                else:
+                    raise AnalysisError('%s: comprehension target %s cannot be bound' % (what, short(t)))
+            bind(g.target, row)
+
             class _Sub(ast.NodeTransformer):
                 def visit_Name(self_, node):
-                    if node.id == g.target.id and isinstance(node.ctx, ast.Load):
-                        return ast.copy_location(ast.Constant(value=c), node)
+                    if node.id in binding and isinstance(node.ctx, ast.Load):
+                        return ast.copy_location(copy.deepcopy(binding[node.id]), node)
                     return node
             out.append(_Sub().visit(copy.deepcopy(expr.elt)))
         return out
@@ -360,6 +393,15 @@ def _seq_elements(fi, expr, what, depth=0):
         if name in _all_params(fi):
             raise AnalysisError('%s: %s is a parameter' % (what, name))
         binds = assigned_value(fi.node, name)
+        if not binds:
+            # a module-level constant sequence
+            consts = fi.mod.repo.try_fold(expr, fi.mod, None)
+            if isinstance(consts, (list, tuple)) and all(isinstance(c, (str, int, bytes, type(None))) for c in consts):
+                return [ast.copy_location(ast.Constant(value=c), expr) for c in consts]
+            vals = fi.mod.assigns.get(name) or []
+            if len(vals) == 1 and isinstance(vals[0], (ast.List, ast.Tuple)) and not any(isinstance(e, ast.Starred) for e in vals[0].elts):
+                return list(vals[0].elts)       # module-level display of names (only module-level names in it)
+            raise AnalysisError('%s: %s is not a local and not a constant sequence' % (what, name))
         plain = [b for b in binds if isinstance(b[0], (ast.Assign, ast.AnnAssign)) and b[2] is None]
         augs = [b for b in binds if isinstance(b[0], ast.AugAssign)]
         if len(plain) != 1 or len(plain) + len(augs) != len(binds):
@@ -425,11 +467,26 @@ def _dict_items(fi, expr, what, depth=0):
             if isinstance(src, ast.Name) and not (isinstance(expr, ast.Name) and src.id == expr.id):
                 items.update(_dict_items(fi, src, what, depth + 1))       # {**base, ...} / dict(base, ...)
                 continue
-            if isinstance(src, (ast.List, ast.Tuple)) and all(
-                    isinstance(p_, ast.Tuple) and len(p_.elts) == 2 and isinstance(p_.elts[0], ast.Constant) for p_ in src.elts):
-                for p_ in src.elts:                                         # dict([('k', v), ...])
-                    items[p_.elts[0].value] = p_.elts[1]
-                continue
+            if isinstance(src, (ast.List, ast.Tuple)):
+                pairs = []
+                for p_ in src.elts:                                         # dict([('k', v), item, ...])
+                    if isinstance(p_, ast.Tuple) and len(p_.elts) == 2 and isinstance(p_.elts[0], ast.Constant):
+                        pairs.append((p_.elts[0].value, p_.elts[1]))
+                        continue
+                    binds = assigned_value(fi.node, p_.id) if isinstance(p_, ast.Name) and p_.id not in _all_params(fi) else []
+                    keys = set(v_.elts[0].value if isinstance(v_, ast.Tuple) and len(v_.elts) == 2 and isinstance(v_.elts[0], ast.Constant)
+                               and idx_ is None else None for st_, v_, idx_ in binds)
+                    if len(keys) == 1 and None not in keys:
+                        # item = ('k', a) in the try, ('k', b) in the handler: the key is known, the value is "item[1]"
+                        val = binds[0][1].elts[1] if len(binds) == 1 else \
+                            ast.copy_location(ast.Subscript(value=p_, slice=ast.Constant(value=1), ctx=ast.Load()), p_)
+                        pairs.append((keys.pop(), val))
+                        continue
+                    pairs = None
+                    break
+                if pairs is not None:
+                    items.update(pairs)
+                    continue
             if isinstance(src, ast.Call) and call_name(src) == 'zip' and len(src.args) == 2 and not src.keywords:
                 # dict(zip(NAMES, values)): the names fold to constants, the values are a followable sequence
                 names = _fold(fi.mod.repo, fi, src.args[0])
@@ -548,7 +605,9 @@ def _runner_verdict(repo, fi, fn_node):
     sound catch-all (in ``fi`` itself, or in the function of the module it is handed to: ``_attempt(lambda: ..., {})``);
     (False, why) when a call that can be seen is not contained; (None, why) when it cannot be told."""
     parents = fi.mod.parents
-    if isinstance(fn_node, ast.Lambda):
+    if isinstance(fn_node, (ast.Name, ast.Attribute)):
+        uses = [fn_node]          # a reference to a function defined elsewhere, written right here
+    elif isinstance(fn_node, ast.Lambda):
         par = parents.get(fn_node)
         if isinstance(par, ast.Assign) and len(par.targets) == 1 and isinstance(par.targets[0], ast.Name) and par.value is fn_node:
             name = par.targets[0].id
@@ -883,8 +942,9 @@ class _Failsafe(object):
                 if not isinstance(idx, int) or not -len(seq) <= idx < len(seq):
                     raise AnalysisError('create_app: route entry %s cannot be read' % short(e0))
                 e0 = _deref(ca, seq[idx])
-            if isinstance(e0, ast.BinOp) and isinstance(e0.op, ast.Add):
-                parts = _seq_elements(ca, e0, 'create_app route entry')      # ('/',) + page
+            if (isinstance(e0, ast.BinOp) and isinstance(e0.op, ast.Add)) or \
+                    (isinstance(e0, ast.Tuple) and any(isinstance(x, ast.Starred) for x in e0.elts)):
+                parts = _seq_elements(ca, e0, 'create_app route entry')      # ('/',) + page   /   (pattern, *page)
             elif isinstance(e0, ast.Tuple) and not any(isinstance(x, ast.Starred) for x in e0.elts):
                 parts = list(e0.elts)
             elif isinstance(e0, ast.Call) and call_tail(e0) == 'SubApplication' and len(e0.args) == 2 and not e0.keywords:
@@ -1115,6 +1175,23 @@ def _parser_contained(rep, fs):
                  and not _harmless_parser_method(repo, ca, c)]
         if inner:
             deferred.append((fn, inner))
+    # references handed on: _attempt(_parse, text, default={}) / _attempt(_ParsedTB.from_string, text)
+    for n in walk_body(ca.node):
+        par = flaw.parents.get(n)
+        if isinstance(par, ast.Call) and par.func is n:
+            continue
+        ref = None
+        if isinstance(n, ast.Name) and isinstance(n.ctx, ast.Load) and n.id not in _all_params(ca) and not assigned_value(ca.node, n.id):
+            try:
+                kind, m, obj = repo.resolve(flaw, n.id)
+            except Exception:
+                kind, m, obj = 'unknown', None, None
+            if kind == 'func' and m is flaw and obj.qualname in leaky:
+                ref = n
+        elif isinstance(n, ast.Attribute) and isinstance(n.ctx, ast.Load) and n.attr == 'from_string' and norm(n.value) == PARSER_CLASS:
+            ref = n
+        if ref is not None:
+            deferred.append((ref, [ref]))
     if not sites and not contained_elsewhere and not harmless and not deferred:
         raise AnalysisError('create_app no longer calls the traceback parser')
     for fn, inner in deferred:
@@ -1189,7 +1266,7 @@ def _parser_contained(rep, fs):
                   flaw, n)
     for fn in _deferred_functions(epf):
         inner = [n for n in ast.walk(fn) if (isinstance(n, ast.Subscript) and isinstance(n.ctx, ast.Load)) or
-                 (isinstance(n, ast.Call) and not _safe_builtin_call(n))]
+                 (isinstance(n, ast.Call) and not _safe_builtin_call(n, epf))]
         if not inner:
             continue
         verdict, detail = _runner_verdict(repo, epf, fn)
@@ -1222,12 +1299,24 @@ def _fresh_is_container(fi, name):
         for st, v, idx in binds)
 
 
-def _safe_builtin_call(n):
+def _safe_builtin_call(n, fi=None):
+    """A call that cannot raise whatever the request data are: container constructors over displays / constant
+    sequences (``dict(a=x)``, ``dict(zip(NAMES, (a, b)))``, ``list()``), type predicates."""
     if not (isinstance(n.func, ast.Name) and not any(k.arg is None for k in n.keywords)):
         return False
-    if n.func.id in _SAFE_CONSTRUCTORS:
+
+    def inert(a, depth=0):
+        if isinstance(a, (ast.Dict, ast.List, ast.Tuple, ast.Set, ast.Constant)):
+            return True        # a display of names / constants is just built
+        if fi is not None and isinstance(a, ast.Name) and a.id not in _all_params(fi) and not assigned_value(fi.node, a.id):
+            v = fi.mod.repo.try_fold(a, fi.mod, None)
+            return isinstance(v, (tuple, list, str, frozenset))     # module-level constant sequence
+        if isinstance(a, ast.Call) and isinstance(a.func, ast.Name) and a.func.id in ('zip', 'enumerate') and not a.keywords and depth < 3:
+            return all(inert(x, depth + 1) for x in a.args)
+        return False
+    if n.func.id in _SAFE_CONSTRUCTORS + ('zip', 'enumerate'):
         # dict(a=x) / list() / tuple([..]) cannot raise; list(x) can (x not iterable)
-        return all(isinstance(a, (ast.Dict, ast.List, ast.Tuple, ast.Set, ast.Constant)) for a in n.args)
+        return all(inert(a) for a in n.args)
     if n.func.id in _SAFE_PREDICATES:
         return not any(isinstance(a, ast.Starred) for a in n.args)
     return False
@@ -1257,7 +1346,7 @@ def _risky_nodes(repo, fi, depth=0, seen=None):
         if isinstance(n, ast.Subscript) and isinstance(n.ctx, ast.Load):
             out.append((n, 'subscript %s' % short(n, 50)))
         elif isinstance(n, ast.Call):
-            if _safe_builtin_call(n):
+            if _safe_builtin_call(n, fi):
                 continue
             if call_tail(n) == 'suppress' and isinstance(fi.mod.parents.get(n), ast.withitem):
                 continue      # with suppress(Exception): -- the guard itself
@@ -1672,7 +1761,7 @@ class _FuncVal(object):
 
     @property
     def qualname(self):
-        return self.fi.qualname if self.fi is not None else self.node.name
+        return self.fi.qualname if self.fi is not None else getattr(self.node, 'name', '<lambda>')
 
 
 class _ClassVal(object):
@@ -1687,7 +1776,14 @@ class _ModVal(object):
 
 class _Instance(object):
     def __init__(self, cls):
-        self.cls, self.attrs = cls, {}
+        self.__dict__['cls'] = cls
+        self.__dict__['attrs'] = {}
+
+    def __getattr__(self, name):       # operator.attrgetter('x')(instance) reads an evaluated attribute
+        attrs = self.__dict__.get('attrs', {})
+        if name in attrs:
+            return attrs[name]
+        raise _Unknown('attribute %s of an instance, read by a library function' % name)
 
 
 class _Method(object):
@@ -1709,7 +1805,8 @@ class _Property(object):
 _BUILTIN_VALUES = {'str': str, 'bytes': bytes, 'int': int, 'list': list, 'tuple': tuple, 'dict': dict, 'bool': bool, 'float': float,
                    'set': set, 'frozenset': frozenset, 'bytearray': bytearray, 'object': object, 'len': len, 'range': range,
                    'reversed': reversed, 'enumerate': enumerate, 'zip': zip, 'isinstance': isinstance, 'min': min, 'max': max,
-                   'sorted': sorted, 'any': any, 'all': all, 'sum': sum, 'abs': abs, 'repr': repr, 'getattr': getattr, 'hasattr': hasattr, 'next': next, 'iter': iter}
+                   'sorted': sorted, 'any': any, 'all': all, 'sum': sum, 'abs': abs, 'repr': repr, 'getattr': getattr, 'hasattr': hasattr, 'next': next, 'iter': iter, 'map': map, 'filter': filter,
+                   'setattr': setattr}
 _EXC_NAMES = ('BaseException', 'Exception', 'ValueError', 'TypeError', 'IndexError', 'KeyError', 'AttributeError', 'LookupError',
               'UnicodeDecodeError', 'UnicodeError', 'RuntimeError', 'StopIteration', 'AssertionError', 'NotImplementedError')
 _PLAIN = (type(None), bool, int, float, str, bytes, list, tuple, dict, set, frozenset, range)
@@ -1726,8 +1823,18 @@ _MATCH_METHODS = {'groupdict', 'group', 'groups', 'start', 'end', 'span'}
 _RE_ATTRS = {'compile', 'match', 'search', 'fullmatch', 'split', 'sub', 'findall', 'escape', 'I', 'IGNORECASE', 'M', 'MULTILINE',
              'S', 'DOTALL', 'X', 'VERBOSE', 'U', 'UNICODE', 'A', 'ASCII'}
 _PATTERN_T, _MATCH_T = type(_re.compile('')), type(_re.match('', ''))
+import functools as _functools
+import itertools as _itertools
+import operator as _operator
+_LIB_ATTRS = {'re': (_re, _RE_ATTRS),
+              'itertools': (_itertools, {'dropwhile', 'takewhile', 'chain', 'islice', 'filterfalse', 'zip_longest', 'starmap', 'repeat', 'count'}),
+              'operator': (_operator, {'attrgetter', 'itemgetter', 'methodcaller', 'eq', 'ne', 'not_', 'truth', 'contains', 'getitem', 'add'}),
+              'functools': (_functools, {'partial', 'reduce'})}
+_LIB_FUNCS = set(getattr(m, a) for m, names in _LIB_ATTRS.values() for a in names if callable(getattr(m, a, None)))
+_OPERATOR_OBJS = (_operator.attrgetter, _operator.itemgetter, _operator.methodcaller)
 _ITERATOR_TYPES = ('reversed', 'list_reverseiterator', 'enumerate', 'zip', 'dict_items', 'dict_keys', 'dict_values', 'list_iterator',
-                   'tuple_iterator', 'str_ascii_iterator', 'str_iterator', 'range_iterator', 'dict_keyiterator')
+                   'tuple_iterator', 'str_ascii_iterator', 'str_iterator', 'range_iterator', 'dict_keyiterator', 'map', 'filter',
+                   'dropwhile', 'takewhile', 'chain', 'islice', 'filterfalse', 'zip_longest', 'starmap', 'repeat', 'count')
 
 
 def _plain(v, depth=0):
@@ -1777,10 +1884,10 @@ class _Eval(object):
             v = _ClassVal(mod.classes[name])
         elif name in mod.imports:
             modname, attr = mod.imports[name]
-            if modname == 're' and attr is None:
-                v = _ModVal('re')
-            elif modname == 're' and attr in _RE_ATTRS:
-                v = getattr(_re, attr)
+            if modname in _LIB_ATTRS and attr is None:
+                v = _ModVal(modname)
+            elif modname in _LIB_ATTRS and attr in _LIB_ATTRS[modname][1]:
+                v = getattr(_LIB_ATTRS[modname][0], attr)
         elif name in mod.assigns:
             vals = [x for x in mod.assigns[name]]
             if len(vals) == 1 and isinstance(vals[0], ast.expr) and depth < 6:
@@ -1814,7 +1921,7 @@ class _Eval(object):
         a = fi.node.args
         if a.vararg or a.kwarg or a.posonlyargs:
             raise _Unknown('signature of %s' % fi.qualname)
-        if any(not (isinstance(d, ast.Name) and d.id in ('classmethod', 'staticmethod', 'property')) for d in fi.node.decorator_list):
+        if any(not (isinstance(d, ast.Name) and d.id in ('classmethod', 'staticmethod', 'property')) for d in getattr(fi.node, 'decorator_list', [])):
             raise _Unknown('decorated function %s' % fi.qualname)
         if any(isinstance(n, (ast.Yield, ast.YieldFrom, ast.Await, ast.Nonlocal, ast.Global)) for n in ast.walk(fi.node)):
             raise _Unknown('generator / nonlocal in %s' % fi.qualname)
@@ -1845,6 +1952,8 @@ class _Eval(object):
             for k, v in outer.items():
                 if k not in env and k not in stored:
                     env[k] = v
+        if isinstance(fi.node, ast.Lambda):
+            return self.expr(fi.node.body, env, depth + 1)
         sig = self.block(fi.node.body, env, depth + 1)
         if sig is not None and sig[0] == 'return':
             return sig[1]
@@ -2046,7 +2155,8 @@ class _Eval(object):
 
     # -- expressions -----------------------------------------------------------------------------------------
     def truth(self, v):
-        if isinstance(v, (_Instance, _FuncVal, _ClassVal, _ModVal, _Method, _ExcClass)) or type(v).__name__ in _ITERATOR_TYPES:
+        if isinstance(v, (_Instance, _FuncVal, _ClassVal, _ModVal, _Method, _ExcClass)) or type(v).__name__ in _ITERATOR_TYPES or \
+                self._transparent(v):
             return True
         if not _plain(v) and not isinstance(v, _Raised):
             raise _Unknown('truth of %s' % type(v).__name__)
@@ -2054,8 +2164,52 @@ class _Eval(object):
 
     def iterate(self, v):
         if isinstance(v, (list, tuple, str, bytes, dict, set, frozenset, range)) or type(v).__name__ in _ITERATOR_TYPES:
-            return v
+            return self._guarded_iter(v)
         raise _Unknown('iteration over %s' % type(v).__name__)
+
+    def _guarded_iter(self, v):
+        """Iterate a real (possibly lazy) iterable: what a library iterator raises on the way is the program's exception."""
+        it = self._real(iter, v)
+        while True:
+            try:
+                x = next(it)
+            except StopIteration:
+                return
+            except (_Unknown, _Raised):
+                raise
+            except RecursionError:
+                raise _Unknown('recursion')
+            except Exception as e:
+                raise _Raised(type(e).__name__, str(e))
+            yield x
+
+    def to_py(self, v, depth):
+        """An evaluated value as an argument of a real library function."""
+        if isinstance(v, _FuncVal):
+            ev = self
+
+            def wrapper(*a, **kw):
+                return ev.call_function(v, list(a), dict(kw), depth + 1)
+            wrapper._vt_wrapped = True
+            return wrapper
+        if isinstance(v, _Method):
+            ok = (isinstance(v.obj, (str, bytes)) and v.name in _STR_METHODS) or (isinstance(v.obj, list) and v.name in _LIST_METHODS) or \
+                (isinstance(v.obj, dict) and v.name in _DICT_METHODS) or (isinstance(v.obj, _PATTERN_T) and v.name in _PATTERN_METHODS)
+            if not ok:
+                raise _Unknown('method %s as a value' % v.name)
+            return getattr(v.obj, v.name)
+        if _plain(v) or type(v).__name__ in _ITERATOR_TYPES or isinstance(v, _Instance) or self._transparent(v) or \
+                (isinstance(v, type) and v in _BUILTIN_VALUES.values()) or v in (len, bool, str, int, repr):
+            return v
+        raise _Unknown('value of type %s as a library argument' % type(v).__name__)
+
+    def _transparent(self, f):
+        """Real callables whose behaviour is fully determined by evaluated parts."""
+        if getattr(f, '_vt_wrapped', False) or isinstance(f, _OPERATOR_OBJS):
+            return True
+        if isinstance(f, _functools.partial):
+            return self._transparent(f.func) or f.func in _LIB_FUNCS
+        return False
 
     def slice_of(self, s, env, depth):
         if isinstance(s, ast.Slice):
@@ -2108,12 +2262,22 @@ class _Eval(object):
             vals = [self.expr(x, env, depth) for x in e.elts]
             return vals if isinstance(e, ast.List) else tuple(vals) if isinstance(e, ast.Tuple) else self._real(set, vals)
         if isinstance(e, ast.Dict):
-            if any(k is None for k in e.keys):
-                raise _Unknown('dict unpacking')
             out = {}
             for k, v in zip(e.keys, e.values):
-                self._real(out.__setitem__, self.expr(k, env, depth), self.expr(v, env, depth))
+                if k is None:
+                    d = self.expr(v, env, depth)
+                    if not isinstance(d, dict):
+                        raise _Unknown('unpacking of %s into a dict display' % type(d).__name__)
+                    out.update(d)
+                else:
+                    self._real(out.__setitem__, self.expr(k, env, depth), self.expr(v, env, depth))
             return out
+        if isinstance(e, ast.Lambda):
+            return _FuncVal(None, node=e, closure=env)
+        if isinstance(e, ast.NamedExpr) and isinstance(e.target, ast.Name):
+            v = self.expr(e.value, env, depth)
+            env[e.target.id] = v
+            return v
         if isinstance(e, ast.BoolOp):
             v = None
             for x in e.values:
@@ -2205,8 +2369,8 @@ class _Eval(object):
     def attribute(self, e, env, depth):
         obj = self.expr(e.value, env, depth)
         if isinstance(obj, _ModVal):
-            if obj.name == 're' and e.attr in _RE_ATTRS:
-                return getattr(_re, e.attr)
+            if obj.name in _LIB_ATTRS and e.attr in _LIB_ATTRS[obj.name][1]:
+                return getattr(_LIB_ATTRS[obj.name][0], e.attr)
             raise _Unknown('%s.%s' % (obj.name, e.attr))
         if isinstance(obj, _Instance):
             if e.attr in obj.attrs:
@@ -2257,6 +2421,11 @@ class _Eval(object):
             return self._real(getattr(obj, name), *args, **kwargs)
         if isinstance(f, _ExcClass):
             return _Raised(f.name, ' '.join(str(a) for a in args if _plain(a)))
+        if f is setattr:
+            if kwargs or len(args) != 3 or not isinstance(args[1], str) or not isinstance(args[0], _Instance):
+                raise _Unknown('setattr')
+            args[0].attrs[args[1]] = args[2]
+            return None
         if f is getattr or f is hasattr:
             if kwargs or len(args) not in ((2, 3) if f is getattr else (2,)) or not isinstance(args[1], str):
                 raise _Unknown('getattr arity')
@@ -2288,12 +2457,18 @@ class _Eval(object):
                 raise _Unknown('isinstance type')
             return isinstance(args[0], ts)
         if f in (len, range, reversed, enumerate, zip, min, max, sorted, any, all, sum, abs, repr, str, bytes, int, list, tuple, dict,
-                 bool, float, set, frozenset, next, iter) or (getattr(f, '__module__', None) == 're' and getattr(f, '__name__', '') in _RE_ATTRS):
-            if not all(_plain(a) or type(a).__name__ in _ITERATOR_TYPES for a in args) or not all(_plain(v) for v in kwargs.values()):
-                raise _Unknown('builtin on %s' % [type(a).__name__ for a in args])
+                 bool, float, set, frozenset, next, iter, map, filter) or f in _LIB_FUNCS or self._transparent(f):
+            if f is _operator.methodcaller and not (args and isinstance(args[0], str) and
+                                                    args[0] in (_STR_METHODS | _LIST_METHODS | _DICT_METHODS) - {'sort'}):
+                raise _Unknown('methodcaller(%r)' % (args[:1],))
+            pyargs = [self.to_py(a, depth) for a in args]
+            pykw = dict((k, self.to_py(v, depth)) for k, v in kwargs.items())
             if f is range and args and any(isinstance(a, int) and abs(a) > 10 ** 6 for a in args):
                 raise _Unknown('large range')
-            return self._real(f, *args, **kwargs)
+            if f in (str, repr, bool, len, list, tuple, dict, set, frozenset, sorted, min, max, sum) and \
+                    any(isinstance(a, _Instance) for a in args):
+                raise _Unknown('%s of an instance' % getattr(f, '__name__', f))
+            return self._real(f, *pyargs, **pykw)
         raise _Unknown('call of %s' % short(e.func, 40))
 
 
